@@ -28,6 +28,8 @@ impl<'buf, IO: Io> Connection<'_, 'buf, IO> {
         {
             return Err(Error::InvalidRequest);
         }
+        // Never start the DISCONNECT in the middle of a partially written packet.
+        self.flush_outbound().await?;
         let mut buffer = [0u8; CONTROL_PACKET_LEN];
         let packet = MqttSerializer::encode(&mut buffer, &disconnect)?;
         self.session.runtime.require_packet_size(packet.len())?;
